@@ -54,6 +54,7 @@ class Ctx:
     discharged: int = 0
     evaluations: int = 0
     nontrivial_keys: set = field(default_factory=set)
+    bulk_distinct: int = 0  # distinct swept cases counted in bulk (each case is a distinct abstract input)
     findings: List[Finding] = field(default_factory=list)
     samples: List[Any] = field(default_factory=list)
     assumptions: List[str] = field(default_factory=list)
@@ -126,7 +127,7 @@ def write_evidence(ctx: Ctx, explanation: str, wall_s: float, violations: int, e
         "obligations": ctx.obligations,
         "discharged": ctx.discharged,
         "evaluations": max(ctx.evaluations, ctx.obligations),
-        "distinct_nontrivial": len(ctx.nontrivial_keys),
+        "distinct_nontrivial": len(ctx.nontrivial_keys) + ctx.bulk_distinct,
         "rule": "an obligation is one rule instance found on the current tree (a table cell, call edge, path, "
                 "terminal, schema field ...); it is non-trivial when it has at least one constraint that can fail; "
                 "distinct = distinct construct keys",
